@@ -27,6 +27,7 @@ def f64OfBits (bits : Nat) : PF :=
 def hexNat (s : String) : Nat := s.toList.foldl (fun a c => a * 16 + (if c.isDigit then c.toNat - 48 else c.toNat - 87)) 0
 
 def getB (j : Json) (k : String) : Bool := (j.getObjValAs? Nat k).toOption.getD 0 == 1
+def getN (j : Json) (k : String) : Nat := (j.getObjValAs? Nat k).toOption.getD 0
 def getS (j : Json) (k : String) : String := (j.getObjValAs? String k).toOption.getD ""
 
 partial def decodeVal (j : Json) : GoVal :=
@@ -35,8 +36,15 @@ partial def decodeVal (j : Json) : GoVal :=
   | "nil" => .nil
   | "bool" => .bool (getB j "n") (getB j "v")
   | "str" => .str (getB j "n") (unhex (getS j "v"))
-  | "int" => .int (numKindOf (getS j "k")) (getB j "n") ((getS j "v").toInt?.getD 0)
-  | "f64" => .f64 (getB j "n") (f64OfBits (hexNat (getS j "v")))
+  | "int" => .int (numKindOf (getS j "k")) (getN j "n" != 0) ((getS j "v").toInt?.getD 0)      -- n = 2: named with a String method
+  | "f64" => .f64 (getN j "n" != 0) (f64OfBits (hexNat (getS j "v")))   -- n = 2, 3: float32 (widened bits), n = 4: named with a String method
+  | "win" =>
+    let base := (arr "v").map decodeVal
+    let ws : List Json := match j.getObjVal? "w" with | .ok (.arr a) => a.toList | _ => []
+    .slice true false (ws.map fun w =>
+      let lo := ((w.getArrVal? 0).toOption.bind (·.getNat?.toOption)).getD 0
+      let hi := ((w.getArrVal? 1).toOption.bind (·.getNat?.toOption)).getD 0
+      .slice true false ((base.drop lo).take (hi - lo)))
   | "dec" => .dec ⟨(getS j "c").toInt?.getD 0, (getS j "e").toInt?.getD 0⟩
   | "ptr" => .ptr (getB j "nil") (match j.getObjVal? "v" with | .ok v => decodeVal v | _ => .nil)
   | "slice" => .slice (getB j "ei") (getB j "nil") ((arr "v").map decodeVal)
@@ -55,6 +63,12 @@ partial def decodeVal (j : Json) : GoVal :=
      | "A" => .struct [([65], true), ([97], false)] fs
      | "K" => .struct [([75], true), ([107], false)] fs
      | "F" => .struct [("hidden".toUTF8.toList, false), ([65], true), ([75], true)] fs
+     | "D" => .struct [("id".toUTF8.toList, false), ("ID".toUTF8.toList, true), ("Name".toUTF8.toList, true)] fs
+     | "D2" => .struct [("ID".toUTF8.toList, true), ("id".toUTF8.toList, false), ("Name".toUTF8.toList, true)] fs
+     | "E" => .struct [("EmbInner".toUTF8.toList, true), ("ID".toUTF8.toList, true)]
+                [.ptr false (.struct [("CreatedBy".toUTF8.toList, true), ("Revision".toUTF8.toList, true)] (fs.take 2)), fs.getD 2 .nil]
+     | "E0" => .struct [("EmbInner".toUTF8.toList, true), ("ID".toUTF8.toList, true)]
+                [.ptr true (.struct [("CreatedBy".toUTF8.toList, true), ("Revision".toUTF8.toList, true)] [.str false [], .int .int false 0]), fs.getD 0 .nil]
      | "R1" => .struct [([75], true), ([65], true)] fs
      | "R2" => .struct [("Pad".toUTF8.toList, true), ("priv".toUTF8.toList, false), ([75], true)] fs
      | _ => .struct [([104, 105, 100, 100, 101, 110], false)] fs)
